@@ -35,6 +35,9 @@ ASSUMPTIONS = [
 ]
 
 NAMES = ["s1", "s2", "s3", "work", "Mine"]
+# names are free text between the braces: dots, dashes, sub-directories; some extend another name
+NAME_POOL = NAMES + ["proj", "proj.alpha", "v1.2", "sub/q", "a-b", "s1.bak", "work.old.2"]
+ABSENT = ["missing_q", "missing_q", "proj.nope", "s1.x", "work.zoq", "sub/none"]
 _ZID = re.compile(r"\d{6}#[0-9A-Za-z]{2,3}")
 
 
@@ -62,7 +65,8 @@ def _where_with_refs(draw, later, force_ref=None, max_depth=1):
 @st.composite
 def _case(draw):
     n = draw(st.integers(1, 5))
-    names = NAMES[:n]
+    names = NAMES[:n] if draw(st.booleans()) else \
+        draw(st.lists(st.sampled_from(NAME_POOL), min_size=n, max_size=n, unique=True))
     saved = {}
     for i, nm in enumerate(names):
         later = names[i + 1:]
@@ -72,12 +76,12 @@ def _case(draw):
     if draw(st.integers(0, 3)) == 0:
         # one saved query references a name that does not exist: every query that reaches it must fail
         broken = draw(st.sampled_from(names))
-        saved[broken]["where"]["ands"][0]["atoms"].append({"t": "ref", "name": "missing_q"})
+        saved[broken]["where"]["ands"][0]["atoms"].append({"t": "ref", "name": draw(st.sampled_from(ABSENT))})
     queries = []
     for _ in range(6):
         k = draw(st.integers(0, 9))
         if k == 0:
-            queries.append({"where": draw(_where_with_refs([], force_ref="missing_q")), "absent": True})
+            queries.append({"where": draw(_where_with_refs([], force_ref=draw(st.sampled_from(ABSENT)))), "absent": True})
         else:
             q = draw(_where_with_refs(names, force_ref=draw(st.sampled_from(names))))
             queries.append({"where": q, "absent": False})
@@ -216,12 +220,16 @@ def check(case, rec: Rec) -> None:
         rows = build_index(case, zdir, rec)
         (zdir / "zoq").mkdir()
         for nm, s in saved.items():
+            (zdir / "zoq" / f"{nm}.zoq").parent.mkdir(parents=True, exist_ok=True)
             (zdir / "zoq" / f"{nm}.zoq").write_text(zoq_line(nm, s) + "\n# saved query\n\n- old results\n")
         paren_text = {}
         for nm in reversed(list(saved)):
-            paren_text.setdefault("missing_q", "#never")
+            for ab in ABSENT:
+                paren_text.setdefault(ab, "#never")
             paren_text[nm] = render_or(saved[nm]["where"], paren_text)
         ctx = {"today": today, "rows": rows}
+        if any("." in nm or "/" in nm for nm in saved):
+            rec.label("saved-name-with-dot-or-directory")
         for qd in case["queries"]:
             text = "S note W " + render_or(qd["where"]) + " O none"
             one = {"dir": case["dir"], "today": case["today"], "saved": saved, "queries": [qd]}
@@ -245,7 +253,7 @@ def check(case, rec: Rec) -> None:
                 if r.code == 0:
                     raise Violation("absent-name-ignored", f"`zorg query {text!r}` exited 0: {r.out[:200]!r}", case=one)
                 rec.label("absent-name")
-                if "missing_q" not in set(refs_of(qd["where"])):
+                if not set(refs_of(qd["where"])) - set(saved):
                     rec.label("absent-name-nested")
                 continue
             if "splice-pools-kinds-or-priorities" in rec.open_keys and pooling_conflict(qd["where"], saved):
